@@ -20,7 +20,21 @@ def dec_scores(w):
     return decode_result(w, f)
 
 
+_FOREIGN = []
+
+
 def impl_eval(text, gold, units):
+    # a history: the same strings have been looked at before by OTHER Separator objects (the tagged corpus' one, a
+    # word-only one) - as in a session that prepares, inspects and then scores a text; evaluate() must not care
+    if not _FOREIGN:
+        from wordseg.separator import Separator
+        _FOREIGN.extend([Separator(phone=' ', syllable=None, word=';eword'), Separator(phone=None, syllable=None, word='_')])
+    for k, line in enumerate(list(text)[:3] + list(gold)[:3]):
+        for lvl in ('word', 'phone'):
+            try:
+                _FOREIGN[k % 2].tokenize(line, lvl, keep_boundaries=(k % 3 != 2))
+            except Exception:      # noqa: the foreign separator may not have that level
+                pass
     r = call_impl(ev.evaluate, list(text), list(gold), None if units is None else list(units))
     if r[0] == 'ok':
         return ('ok', eg.impl_scores(r[1]))
